@@ -451,6 +451,12 @@ func (e *fnEnc) inline(v ssa.Value, fn *ssa.Function, c *ssa.CallCommon, args []
 		if k < len(args) {
 			child.val[p] = args[k]
 			child.params[p.Name()] = TV{args[k], e.S().SortOf(p.Type()), p.Type()}
+			// an interior address (&x.f, &a[i], &global) keeps its static resolution inside the inlined body
+			if k < len(c.Args) {
+				if lv, ok := e.lvOf(c.Args[k]); ok {
+					child.lvs[p] = lv
+				}
+			}
 		}
 	}
 	if mc, ok := c.Value.(*ssa.MakeClosure); ok {
